@@ -30,11 +30,11 @@ def scalar(rng, bools=True, oids=True, dates=True):
 
 def value(rng, depth=2, **kw):
     k = rng.random()
-    if depth <= 0 or k < 0.55:
+    if depth <= 0 or k < 0.50:
         return scalar(rng, **kw)
-    if k < 0.75:
+    if k < 0.68:
         return [value(rng, depth - 1, **kw) for _ in range(rng.choice([0, 1, 2, 2, 3]))]
-    if k < 0.9:
+    if k < 0.82:
         return document(rng, depth - 1, with_id=False, **kw)
     # array of sub-documents
     return [document(rng, depth - 1, with_id=False, **kw) if rng.random() < 0.8
@@ -99,13 +99,47 @@ def path(rng, doc, allow_id=False):
     return '.'.join(p[:4])
 
 
+def perturb(rng, v, **kw):
+    """A near miss of v: same shape with one element changed, added or dropped."""
+    if isinstance(v, list):
+        w = list(v)
+        k = rng.random()
+        if w and k < 0.45:
+            w[rng.randrange(len(w))] = scalar(rng, **kw)
+        elif w and k < 0.65:
+            del w[rng.randrange(len(w))]
+        else:
+            w.insert(rng.randrange(len(w) + 1), scalar(rng, **kw))
+        return w
+    if isinstance(v, dict) and v:
+        w = dict(v)
+        key = rng.choice(list(w))
+        if rng.random() < 0.5:
+            w[key] = scalar(rng, **kw)
+        else:
+            del w[key]
+        return w
+    if isinstance(v, bool) or v is None:
+        return rng.choice([None, 0, 1, False, True])
+    if isinstance(v, int):
+        return rng.choice([v + 1, v - 1, float(v), v == 1])
+    if isinstance(v, float):
+        return rng.choice([v + 0.5, int(v)])
+    if isinstance(v, str):
+        return rng.choice([v + 'a', v[:-1], v.upper()])
+    return scalar(rng, **kw)
+
+
 def operand(rng, doc, **kw):
-    """An operand: half of the time a value taken from the document itself."""
-    if rng.random() < 0.5:
+    """An operand: often a value taken from the document itself, or a near miss of one."""
+    k = rng.random()
+    if k < 0.62:
         vals = sub_values(doc)
         v = rng.choice(vals)
         if not (isinstance(v, dict) and '_id' in v):
-            return v
+            return v if k < 0.45 else perturb(rng, v, **kw)
+    if k < 0.70:
+        return None
     return value(rng, 1, **kw)
 
 
